@@ -368,6 +368,11 @@ func runPlan(t *testing.T, p *cPlan) (out *runOut) {
 
 // judge applies the C20 oracles to the log. present: key -> value at quiescence.
 func judge(p *cPlan, log []event, present map[int]int, out *runOut) {
+	if os.Getenv("VERIF_DUMPLOG") != "" {
+		for _, e := range log {
+			fmt.Printf("EV seq=%d end=%d task=%s kind=%s key=%d val=%d ok=%v at0=%s at=%s caller=%s inv=%d keys=%v\n", e.seq, e.end, e.task, e.kind, e.key, e.val, e.ok, e.at0.Format("05.000000"), e.at.Format("05.000000"), e.caller, e.inv, e.keys)
+		}
+	}
 	age := time.Duration(p.AgeMs) * time.Millisecond
 	type setInfo struct {
 		ev event
@@ -485,8 +490,17 @@ func judge(p *cPlan, log []event, present map[int]int, out *runOut) {
 			}
 			if e.end != 0 && e.end < c.seq {
 				found = true
-				if e.at0.After(lo) {
-					lo = e.at0
+				from := e.at0
+				if e.kind == "cleanup" && e.caller == "timer" {
+					// an age-triggered pass stamps a failed cleanup with the time the pass began, not the time of the attempt
+					for _, f := range log {
+						if f.kind == "cleanup" && f.inv == e.inv && f.at0.Before(from) {
+							from = f.at0
+						}
+					}
+				}
+				if from.After(lo) {
+					lo = from
 				}
 				if e.at.After(hi) {
 					hi = e.at
